@@ -2369,6 +2369,14 @@ def obligations(tier, seed):
     for k in (1, 2):
         obs.append(Ob("C15.gmrf.inf_path[cholesky#%d]" % k, "U", (lambda k=k: gmrf_inf_path(k)), clause="failure sentinel +inf is rejected and restored", funcs=F, timeout=120))
     obs.append(Ob("C15.gmrf.draw_consistent", "B", gmrf_draw_consistent, clause="GMRF block update: proposal drawn from the distribution its Hastings density describes (bounded)", funcs=F, timeout=120))
+    # HMC: the Hastings value itself is C16's contract; the representation invariant it reads at step time is re-stated here because a
+    # checkpoint restore or an adaptor is part of "any run" (same scenario as C16.hastings.mass_invariant, run under this property)
+    from contracts import C16 as _c16
+    for rank in ("diag", "dense"):
+        for how in ("init", "assign", "inplace", "load_state"):
+            obs.append(scenario_ob("C16", "C15.hastings.hmc.mass_invariant[d=2,%s,%s]" % (rank, how), "V", "scn_mass_invariant", (2, rank, how),
+                                   clause="Hastings ratio of the HMC operator uses the inverse of the mass matrix its momentum is drawn with, after every way a run changes the mass matrix",
+                                   funcs=F, seed=seed, fns=_c16._fns(2)))
     # logged rows / whole runs
     L = "every logged row is self-consistent"
     iters = 3000 if thorough else 300
